@@ -420,6 +420,18 @@ def _std_model(ex, c, args, guard, site):
         if sc >= ec: return En(mk_int(0, 'isize'), {0: []}, 'Option'), T
         ex.write_ref(r, [], Agg([mk_int(sc + 1, ty), e_], rg_.kind))
         return En(mk_int(1, 'isize'), {1: [mk_int(sc, ty)]}, 'Option'), T
+    m = re.match(r'^<(?:std::ops::)?(Range|RangeInclusive)<(%s)> as Iterator>::(all|any)$' % INT, cs)
+    if m:
+        rg_ = ex.deref(args[0]); ty = m.group(2)
+        lo_, hi_ = rg_.f[0].const(), rg_.f[1].const()
+        if lo_ is None or hi_ is None: raise Inconclusive('Range::all/any with symbolic bounds')
+        if m.group(1) == 'RangeInclusive': hi_ += 1
+        if hi_ - lo_ > 256: raise Inconclusive('Range::all/any over more than 256 values')
+        acc = []
+        for i in range(lo_, hi_):
+            v, rg2 = call_closure(ex, args[1], [mk_int(i, ty)], guard)
+            acc.append(v.t)
+        return bv_of(zand(*acc) if m.group(3) == 'all' else zor(*acc)), T
     m = re.match(r'^(?:std::ops::)?(RangeInclusive|Range)::<(%s)>::contains::<(%s)>$' % (INT, INT), c)
     if m:
         rg_ = ex.deref(args[0]); x = ex.deref(args[1])
